@@ -762,6 +762,19 @@ func (e *Engine) localValue(st *State, fr *Frame, spec string, ld *loopDesc) Val
 		v := st.cells[cellKey{fr.id, ld.rangeIdx}]
 		return Val{Add(st.norm(v[0]), IntC(1))}
 	}
+	if spec == "oi" {
+		var outer *loopDesc
+		for _, o := range e.loopsOf(fr.fn).byHeader {
+			if o != ld && o.blocks[ld.header] && o.rangeIdx != nil && (outer == nil || len(o.blocks) < len(outer.blocks)) {
+				outer = o
+			}
+		}
+		if outer == nil {
+			engineErr("`oi` used in a loop that is not nested in a range-over-slice loop in %s", fr.fn)
+		}
+		v := st.cells[cellKey{fr.id, outer.rangeIdx}]
+		return Val{st.norm(v[0])}
+	}
 	name, pos := spec, ""
 	if i := strings.Index(spec, "@"); i >= 0 {
 		name, pos = spec[:i], spec[i+1:]
